@@ -306,4 +306,26 @@ __CPROVER_ensures((__cmd != NULL && __CPROVER_return_value != NULL) ==> ( \
 DECL_jwt_builder_generate(contract_all_jwt_builder_generate, C14_GEN_CLAUSES C03_GEN_CLAUSES C10_GEN_CLAUSES C13_GEN_CLAUSES C17_GEN_CLAUSES);
 #endif
 
+
+#if defined(VERIF_TU_CHECKER) || defined(VERIF_TU_BUILDER)
+/* C17: *_new() returns either NULL (an allocation failed) or a complete, live object: both JSON
+ * containers present, no error, no key.  Never a released or half-built object.
+ * *_free() releases the object; NULL is accepted. */
+#ifdef VERIF_TU_CHECKER
+#define SPEC_CLAIMS_DEF (JWT_CLAIM_EXP | JWT_CLAIM_NBF)
+#else
+#define SPEC_CLAIMS_DEF JWT_CLAIM_IAT
+#endif
+#define NEW_OK(r) (__CPROVER_is_fresh(r, sizeof(*(r))) && (r)->error == 0 && (r)->error_msg[0] == 0 && (r)->c.key == NULL && (r)->c.exp == 0 && (r)->c.nbf == 0 && \
+	(r)->c.alg == JWT_ALG_NONE && (r)->c.cb == NULL && (r)->c.claims == SPEC_CLAIMS_DEF && \
+	(r)->c.payload != NULL && (r)->c.headers != NULL && (r)->c.payload != (r)->c.headers)
+#define NEW_DOCS_OK(r) ((r)->c.payload->type == JSON_OBJECT && (r)->c.payload->refcount == 1 && (r)->c.payload->tracked == NULL && \
+	(r)->c.headers->type == JSON_OBJECT && (r)->c.headers->refcount == 1 && (r)->c.headers->tracked == NULL)
+#define DECL_cmd_new(NAME) \
+verif_cmd_t *NAME(void) \
+__CPROVER_assigns() \
+__CPROVER_ensures(__CPROVER_return_value == NULL || NEW_OK(__CPROVER_return_value)) \
+__CPROVER_ensures(__CPROVER_return_value == NULL || NEW_DOCS_OK(__CPROVER_return_value))
+DECL_cmd_new(contract_C17_cmd_new);
+#endif
 #endif
